@@ -49,3 +49,75 @@ Fixpoint use_tree (uses : nat -> list nat) (fuel : nat) (path : list nat) (x : n
                      end
          end) (uses x) 0
   end.
+
+(* ---- INCLUDE resolution (FortranAST.resolve_includes, ast.encloses): the entities of an included
+   file become children of the including scope, across files, possibly of several scopes.  The
+   object graph has two link kinds: the parent pointer (one per object, overwritten by the last
+   includer) and the children lists (appended to, never pruned by a later includer). *)
+Record forest := { f_parent : nat -> option nat; f_children : nat -> list nat }.
+
+(* `while above is not None and id(above) not in seen: if above is obj: return True; ...; above = above.parent` *)
+Fixpoint climb (par : nat -> option nat) (fuel : nat) (seen : list nat) (obj : nat) (s : option nat) : option bool :=
+  match fuel with
+  | O => None
+  | S f =>
+    match s with
+    | None => Some false
+    | Some x => if nmem x seen then Some false else if x =? obj then Some true else climb par f (x :: seen) obj (par x)
+    end
+  end.
+
+(* `below = [obj]; while below: inner = below.pop(); if inner is scope: return True; if id(inner) not in seen: ...extend(children)`;
+   the head of `stack` is the top of the Python list *)
+Fixpoint descend (ch : nat -> list nat) (fuel : nat) (seen : list nat) (stack : list nat) (target : nat) : option bool :=
+  match fuel with
+  | O => None
+  | S f =>
+    match stack with
+    | [] => Some false
+    | x :: rest =>
+      if x =? target then Some true
+      else if nmem x seen then descend ch f seen rest target
+      else descend ch f (x :: seen) (rev (ch x) ++ rest) target
+    end
+  end.
+
+Definition encloses (fo : forest) (fuel : nat) (obj scope : nat) : option bool :=
+  match climb (f_parent fo) fuel [] obj (Some scope) with
+  | Some true => Some true
+  | Some false => descend (f_children fo) fuel [] [obj] scope
+  | None => None
+  end.
+
+Definition set_parent (fo : forest) (child parent : nat) : forest :=
+  {| f_parent := fun z => if z =? child then Some parent else f_parent fo z;
+     f_children := fun z => if z =? parent then f_children fo z ++ [child] else f_children fo z |}.
+
+Fixpoint remove_first (x : nat) (l : list nat) : list nat :=
+  match l with [] => [] | y :: r => if x =? y then r else y :: remove_first x r end.
+
+Inductive inc_op :=
+| Attach (child parent : nat)      (* parent_scope.add_child(child) unless encloses(child, parent_scope) *)
+| Detach (parent child : nat).     (* parent_scope.children.remove(obj): an INCLUDE statement resolved again *)
+
+Definition inc_step (fuel : nat) (fo : forest) (o : inc_op) : forest :=
+  match o with
+  | Attach c p => match encloses fo fuel c p with Some false => set_parent fo c p | _ => fo end
+  | Detach p c => {| f_parent := f_parent fo;
+                     f_children := fun z => if z =? p then remove_first c (f_children fo z) else f_children fo z |}
+  end.
+
+(* the pinned tree attached without asking *)
+Definition inc_step_unguarded (fo : forest) (o : inc_op) : forest :=
+  match o with Attach c p => set_parent fo c p | Detach _ _ => fo end.
+
+(* what update_fqsn does on a scope: recurse into every child (no guard) *)
+Fixpoint fqsn_walk (ch : nat -> list nat) (fuel : nat) (x : nat) : option nat :=
+  match fuel with
+  | O => None
+  | S f => (fix go (l : list nat) (acc : nat) : option nat :=
+              match l with
+              | [] => Some (S acc)
+              | y :: r => match fqsn_walk ch f y with Some k => go r (acc + k) | None => None end
+              end) (ch x) 0
+  end.
